@@ -270,6 +270,59 @@ def check_vectors(ctx, rep, rng, tier):
                 return
 
 
+def check_header_roundtrip(ctx, rep, rng, tier):
+    """whole-header round trips (serialise, parse) with boundary values in every field and names over BMP/astral/
+    control characters, through Header.write / Header._read and against the model writer/parser"""
+    from harness import hdr
+    model = ctx["model"]
+    n = 150 if tier == "quick" else 3000
+    for i in range(n):
+        t = hdr.gen_py7zr_like_header(rng, with_partial=(i % 2 == 0))
+        pos = rng.choice([32, 33, 34, 35, 100, 4097])
+        rep.count(("hdr", i, repr(t)[:200]), nontrivial=True)
+        w1 = hdr.impl_write(t, pos)
+        if w1[0] != "ok":
+            rep.violation("Header.write raises %s on a header graph with legal values" % w1[1],
+                          {"kind": "header", "tree": t, "pos": pos}, match_keys={"kind": "header-write"})
+            return
+        back = hdr.impl_parse(w1[1])
+        if back[0] != "ok":
+            rep.violation("the header py7zr wrote cannot be parsed back (%s)" % back[1], {"kind": "header", "tree": t, "pos": pos},
+                          match_keys={"kind": "header-roundtrip"})
+            return
+        # names, emptystream flags, mtime and attributes (undefined staying undefined) must come back as written
+        want = [(f[0], f[1], f[4] if f[4] != [] else [[]], f[5] if f[5] != [] else [[]]) for f in t[1][0]]
+        got = [(f[0], f[1], f[4], f[5]) for f in back[1][1][0]]
+        if want != got:
+            k = next(j for j, (a, b) in enumerate(zip(want, got)) if a != b) if len(want) == len(got) else -1
+            rep.violation("whole-header round trip changes entry %d: wrote %r read %r" % (k, want[k] if k >= 0 else len(want), got[k] if k >= 0 else len(got)),
+                          {"kind": "header", "tree": t, "pos": pos}, match_keys={"kind": "header-roundtrip"})
+            return
+        # sizes, counts, CRCs of the stream sections
+        if t[0] and back[1][0]:
+            a, b = t[0][0], back[1][0][0]
+            if a[0] and (a[0][0][:3] != b[0][0][:3]):
+                rep.violation("pack info changes in a header round trip: %r -> %r" % (a[0][0][:3], b[0][0][:3]),
+                              {"kind": "header", "tree": t, "pos": pos}, match_keys={"kind": "header-roundtrip"})
+                return
+            if a[2] and (a[2][0][0] != b[2][0][0] or a[2][0][2:] != b[2][0][2:]):
+                rep.violation("sub-stream info changes in a header round trip", {"kind": "header", "tree": t, "pos": pos},
+                              match_keys={"kind": "header-roundtrip"})
+                return
+        if model is not None:
+            mw = hdr.model_write(model, t, pos)
+            if mw[0] != "ok" or mw[1] != w1[1]:
+                rep.violation("model writer and Header.write differ", {"kind": "header-correspondence", "tree": t, "pos": pos},
+                              concrete=False, match_keys={"kind": "correspondence"})
+                return
+            mp = hdr.model_parse(model, w1[1])
+            if mp[0] != "ok" or mp[1] != back[1]:
+                rep.violation("model parser and Header._read differ", {"kind": "header-correspondence", "tree": t, "pos": pos},
+                              concrete=False, match_keys={"kind": "correspondence"})
+                return
+    rep.extra["header_roundtrips"] = n
+
+
 def check_translation(ctx, rep, rng, tier):
     """translation validation: the generated Gallina functions, extracted, against the Python they came from"""
     model = ctx["model"]
@@ -323,7 +376,7 @@ def run(ctx):
                        "random per class; boolean vectors of every length 0..130 x 6 patterns x both modes; names over BMP/"
                        "astral/control; time/attribute vectors with every definedness shape; non-trivial = value >= 128 / "
                        "non-empty vector; distinct by value")
-    for part in (check_translation, check_number, check_boolean, check_names, check_fixed, check_vectors):
+    for part in (check_translation, check_number, check_boolean, check_names, check_fixed, check_vectors, check_header_roundtrip):
         try:
             part(ctx, rep, rng, tier)
         except Exception as e:  # noqa
